@@ -109,20 +109,20 @@ Definition do_bulk_add_or_replace (replace : bool) (rs : rows) (req : list rid) 
     for row_id in row_ids:
       if row_id is None or row_id < 0: continue
       if row_id > 1000000: raise ValueError("Row ID too high")
-      if row_id == 0 or row_id in seen or (not replace and row_id in table.row_ids): raise ValueError(...)
+      if row_id == 0 or row_id in seen: raise ValueError("Row ID %s is invalid or repeated")
       seen.add(row_id)
-      next_row_id = max(next_row_id, row_id + 1)                                                         *)
-Fixpoint validate_fixed (replace : bool) (rs : rows) (seen : list Z) (next : Z) (req : list rid)
-  : py_result Z :=
+      next_row_id = max(next_row_id, row_id + 1)
+    (an id that is already in use is still refused by the doc action's assertion)                        *)
+Fixpoint validate_fixed (seen : list Z) (next : Z) (req : list rid) : py_result Z :=
   match req with
   | [] => PyOk next
   | r :: t =>
       match explicit r with
-      | None => validate_fixed replace rs seen next t
+      | None => validate_fixed seen next t
       | Some z =>
           if z >? MAX_ROW_ID then PyErr PyValueError
-          else if (z =? 0) || py_mem Z.eqb z seen || (negb replace && row_in z rs) then PyErr PyValueError
-          else validate_fixed replace rs (seen ++ [z]) (Z.max next (z + 1)) t
+          else if (z =? 0) || py_mem Z.eqb z seen then PyErr PyValueError
+          else validate_fixed (seen ++ [z]) (Z.max next (z + 1)) t
       end
   end.
 
@@ -140,7 +140,7 @@ Fixpoint fill_autos (next : Z) (req : list rid) : list Z :=
   end.
 
 Definition do_bulk_add_or_replace_fixed (replace : bool) (rs : rows) (req : list rid) : outcome :=
-  match validate_fixed replace rs [] (if replace then 1 else next_row_id rs) req with
+  match validate_fixed [] (if replace then 1 else next_row_id rs) req with
   | PyErr e => Rejected e
   | PyOk next => finish replace rs (fill_autos next req)
   end.
@@ -175,6 +175,14 @@ Definition rejects_statement (f : rows -> list rid -> outcome) (check_existing :
 (* For ReplaceTableData every old row goes away first: "existing" is empty for the purposes of the statement. *)
 Definition replace_as_add (f : bool -> rows -> list rid -> outcome) (old : rows) : rows -> list rid -> outcome :=
   fun _ req => f true old req.
+
+(* The two full statements of C27, for an implementation f of doBulkAddOrReplace (f replace rows request). *)
+Definition alloc_full (f : bool -> rows -> list rid -> outcome) : Prop :=
+  (forall rs req, wf_rows rs -> alloc_statement (f false) rs req) /\
+  (forall old req, wf_rows old -> alloc_statement (replace_as_add f old) [] req).
+
+Definition rejects_full (f : bool -> rows -> list rid -> outcome) : Prop :=
+  forall replace rs req, wf_rows rs -> rejects_statement (f replace) (negb replace) rs req.
 
 (* ---- hypotheses that exclude the defects of the unchanged loop -------------------------------------- *)
 
